@@ -337,7 +337,8 @@ type CustomQuery struct {
 	Inputs []CustomQueryInput
 }
 
-var reCustomQueryFields = regexp.MustCompile(`(\w+)\s*=\s*\$(\w+)\$`)
+// a placeholder takes the type of the field it is compared with
+var reCustomQueryFields = regexp.MustCompile(`(\w+)\s*(?:<>|!=|<=|>=|=|<|>)\s*\$(\w+)\$`)
 
 func newCustomQuery(columsByName map[string]types.Type, comment string) (out CustomQuery) {
 	out.GoFunctionName, out.Query, _ = strings.Cut(comment, " ")
